@@ -2,6 +2,8 @@ package main
 
 import (
 	"fmt"
+
+	"golang.org/x/tools/go/ssa"
 )
 
 var c10Pkgs = map[string]bool{
@@ -54,4 +56,45 @@ func runC10(c *Ctx) {
 	runC10R2(c)
 }
 
-func runC10R2(c *Ctx) {}
+// C10-R2: memory after disk (shared with C08-R2 / C05-R3 / C15-R5).
+func runC10R2(c *Ctx) {
+	checkMirrorAfterDisk(c, "C10-R2", addrMgrMirrors)
+	checkWatchOnlyFlag(c, "C10-R2")
+	checkPassphraseChange(c, "C10-R2")
+	// R3: an operation that swaps in-memory keys eagerly (Manager.ChangePassphrase) must be the last fallible step of
+	// its enclosing database transaction: otherwise a later failure rolls the database back while memory keeps the swap.
+	cp := c.P.Func("waddrmgr", "Manager", "ChangePassphrase")
+	if cp == nil {
+		c.Unresolved("C10-R3", "waddrmgr.Manager.ChangePassphrase")
+	} else {
+		ed := newErrDisc(c.P)
+		n := 0
+		for _, cs := range c.P.callers(cp) {
+			call, ok := cs.(*ssa.Call)
+			if !ok || shortPkg(fnPkgPath(call.Parent())) != "wallet" {
+				continue
+			}
+			n++
+			fn := call.Parent()
+			// after this call succeeded (nil edge / direct return), no further write-error carrier call may follow in the closure
+			q := &PathQuery{Fn: fn}
+			q.Target = func(ins ssa.Instruction, via *ssa.BasicBlock) bool {
+				c2, ok := ins.(*ssa.Call)
+				return ok && c2 != call && ed.isCarrierSite(c2)
+			}
+			hits := q.From(call)
+			detail := ""
+			if len(hits) > 0 {
+				detail = "after Manager.ChangePassphrase has replaced the in-memory master key, the same database transaction performs another fallible write (" + ed.siteName(hits[0].Ins.(*ssa.Call)) + " at " + c.P.Pos(hits[0].Ins.Pos()) +
+					"): if it fails the transaction rolls back but memory keeps the new key (old passphrase rejected until restart)"
+			}
+			role := "first"
+			if len(hits) == 0 {
+				role = "last"
+			}
+			c.Check("C10-R3", "key-swap-is-last-write-of-transaction:"+fnName(fn)+"/"+role, call.Pos(), len(hits) == 0, detail)
+		}
+		c.Floor("C10-R3", "wallet-level ChangePassphrase call sites", n, 3)
+	}
+	c.Advisory("ScopedKeyManager.addrs (address-object cache) is deliberately not a tracked mirror: nextAddresses caches each read-back address before commit; after a rollback the next committed request re-issues exactly that address (see DESIGN.md C10-R2)")
+}
